@@ -112,6 +112,8 @@ func searchV1(c v1c, o *Op, start Item) (Item, []Item, error) {
 	var esk map[string]*v1sdk.AttributeValue
 	if len(start) > 0 {
 		esk = toV1Item(start)
+	} else if o.EmptyStart {
+		esk = map[string]*v1sdk.AttributeValue{} // an empty map is no start key, like nil
 	}
 	if o.Scan {
 		out, err := c.Scan(&v1sdk.ScanInput{TableName: strptr(o.Table), IndexName: optStr(o.Index), FilterExpression: optStr(o.Filter),
@@ -270,6 +272,8 @@ func runV1(c0 *v1.Client, o *Op) (out Outcome) {
 			ExpressionAttributeNames: v1Names(o), ExpressionAttributeValues: v1Values(o)}
 		if o.RetOld {
 			in.ReturnValues = aws.String("ALL_OLD")
+		} else if o.RetOther != "" {
+			in.ReturnValues = aws.String(o.RetOther) // NONE, or a value DeleteItem has no use for: nothing comes back
 		}
 		res, err := c.DeleteItem(in)
 		if err != nil {
